@@ -25,6 +25,11 @@ TRUSTED = [
     'hand-written model Model/C01Aggr.v (the aggregate column Monad.count / Monad.aggregate emit, SQL aggregate semantics incl. the builder\'s coalesce(SUM(x), 0), the '
     'result converter, Pony\'s documented aggregate semantics): aggregate column and conditions tied node for node on four providers, the value real SQLite returns for the '
     'statement vs sql_aggr over the same table on every run',
+    'hand-written models Model/C01Len.v (LEFT JOIN + GROUP BY + HAVING statement of len(g.members), the WHERE / HAVING partition), Model/C01Form.v (subquery conditions and scalar '
+    'subqueries as columns 40.. of g\'s row; the harness reads NOT EXISTS s as NOT (EXISTS s) and x NOT IN s as NOT (x IN s), identities of SQL\'s three-valued logic, and replaces '
+    'subquery nodes by pseudo columns in pre-order), Model/C01Group.v (select list, GROUP BY list, partition by key values) and Model/C01Order.v (ORDER BY list, comparison of stored values, '
+    'NULL placement per dialect): each tied on every run structurally on four providers and semantically against the rows real SQLite returns (multisets for GROUP BY, ordered lists '
+    'for ORDER BY); the NULL placement of PostgreSQL / MySQL is from their documentation',
 ]
 ASSUMPTIONS = [
     'None rules: None operand of arithmetic / string op / len / abs / min / max -> None; comparison (incl. in / not in) with a None operand -> unknown; '
@@ -40,7 +45,7 @@ ASSUMPTIONS = [
     'reference: the members are the P objects whose group is g; a None element of the collection never matches, a None left operand makes the comparisons unknown; primary '
     'keys of P are distinct integers; one count-subquery per condition; len(g.members) / count(g.members) in conditions have their own model (Model/C01Len.v: LEFT JOIN + GROUP BY g.id + '
     'HAVING; primary keys of G distinct integers; WHERE conditions over g\'s own columns); subquery conditions and the scalar subqueries count / sum / min / max(<item> for m in g.members if c) '
-    'combine freely with and / or / not and may be selected (Model/C01Form.v; an item must mention m; avg and the attribute-lifting forms sum(g.members.a) are not modelled)',
+    'combine freely with and / or / not and may be selected (Model/C01Form.v; the SQL of an item must mention a column of m outside IS NULL tests - otherwise SQL scopes the aggregate to the outer query, a recorded defect; avg and the attribute-lifting forms sum(g.members.a) are not modelled)',
     'aggregates as whole-query results without GROUP BY (Model/C01Aggr.v): select(count() | count(p) | count(e) | sum(e) | sum(distinct(e)) | min(e) | max(e) | avg(e) | '
     'avg(distinct(e)) for p in P [if c]); reference = Pony\'s documented aggregates over the comprehension: None values skipped, sum of nothing 0, min / max / avg of nothing None, '
     'count(e) = number of different non-None values (strict Python would raise on None operands and has no count); the average is the exact quotient (float rounding outside); '
@@ -60,7 +65,8 @@ RULE = ('structural: all 1330 depth<=2 expressions over a 14-leaf alphabet (samp
         'expressions of depth 2..5 + hand-made shapes, each on 4 providers, as filter and/or projection; semantic: the same expressions on real SQLite over a fixed '
         'table (None / negative / zero / positive, empty / non-empty); non-trivial = an expression with at least one operator whose translation was compared; '
         'distinct = distinct (provider, mode, query text); join and collection queries: hand-made shapes + seeded random queries (1-2 atoms, inner conditions of depth <= 3) '
-        'on 4 providers and on real SQLite over fixed object graphs (groups with 0..4 members, None among member values and among g\'s own)')
+        'on 4 providers and on real SQLite over fixed object graphs (groups with 0..4 members, None among member values and among g\'s own); len / formula / aggregate / GROUP BY / ORDER BY queries: hand-made shapes + 20-30 seeded random '
+        'queries each in the quick tier (300-400 in the thorough tier) on 4 providers and on real SQLite over the fixed table')
 
 QUICK = dict(order_queries=25, order_search=150, group_queries=25, group_search=150, form_queries=25, form_search=150, len_queries=20, len_search=120, aggr_queries=30, aggr_search=200, coll_queries=30, coll_search=150, join_queries=40, join_search=150, like_random=60, n_random=240, n_enum=300, n_depth3=60, sem_random=90, sem_enum=110, sem_depth3=30, rows=6, search_random=260, search_ext=160)
 THOROUGH = dict(order_queries=300, order_search=3000, group_queries=300, group_search=3000, form_queries=300, form_search=3000, len_queries=300, len_search=3000, aggr_queries=400, aggr_search=4000, coll_queries=400, coll_search=3000, join_queries=500, join_search=3000, like_random=600, n_random=2500, n_enum=1330, n_depth3=500, sem_random=600, sem_enum=700, sem_depth3=200, rows=14, search_random=4000, search_ext=3000)
@@ -285,10 +291,10 @@ def replay(ctx, data):
 
 LEVEL_TEXT = ('Machine-checked proof (Coq 8.16.1, structural induction on the expression, unbounded depth) that for the scalar filter / projection grammar over one '
               'entity (int / str / bool attributes, optional or required; literals; external parameters; + - * // % / unary minus abs; string + and len; comparisons; '
-              'is (not) None; and / or / not; in / not in literal lists; if-else; coalesce; min / max of several arguments) the SQL produced by the model of the monad '
+              'is (not) None; and / or / not; in / not in literal lists; if-else with a condition or any value as test; coalesce; min / max of several arguments) the SQL produced by the model of the monad '
               'translation evaluates, under the SQL semantics of SQLite, PostgreSQL and MySQL, to Python\'s result: WHERE keeps exactly the rows of the comprehension, '
-              'selected expressions have Python\'s values, lifted to result lists with DISTINCT = set semantics; on the explicit complement of five recorded defect classes '
-              '(floor division / modulo / true division of integers, a None value tested for truth below `not`, conditions as comparison operands) that are refuted by '
+              'selected expressions have Python\'s values, lifted to result lists with DISTINCT = set semantics; on the explicit complement of the recorded defect classes '
+              '(floor division / modulo / true division of integers, a None value tested for truth below `not`, conditions as comparison operands; see known_findings/C01.json) that are refuted by '
               'witnesses. The model is compared node for node with the real translator on four providers on every run; the SQLite semantics is validated against the '
               'linked SQLite; an end-to-end differential search on real SQLite also covers LIKE / upper / lower / slices / between. Further theorems with their own models, ties '
               'and searches: the LIKE family (C01_like), attribute paths through Optional to-one references with the FROM / LEFT JOIN section (C01_left_join_rows, '
@@ -298,8 +304,9 @@ LEVEL_TEXT = ('Machine-checked proof (Coq 8.16.1, structural induction on the ex
               'GROUP BY + HAVING statement the translator emits (C01_collection_len_rows), and aggregates as whole-query results without GROUP BY - count / sum / '
               'min / max / avg of a scalar expression over the filtered rows with the DISTINCT forms, NULL skipping and sum of nothing = 0 (C01_aggregate), several aggregates and GROUP BY by '
               'the non-aggregate items of the select list incl. NULL keys (C01_group_rows), order_by with expression keys and the NULL placement of each dialect (C01_order_rows) - each stated except '
-              'for recorded, refuted defects.')
-LEVEL_NOTE = ('Partial: joins over several loop variables, collection conditions other than the exists / in / count / len atoms (avg over a collection, sum(g.members.a)-style attribute lifting with GROUP BY, nested collections), aggregates in HAVING or inside larger selected expressions, dates, Decimal / float, JSON, arrays, hybrid methods, lambdas and generator '
+              'for recorded, refuted defects (Optional paths under the inner join of select(), Required / primary-key attributes reached through a None reference, an aggregate over a collection whose item has no column of the member); '
+              'six further defects found with these models were repaired in /repo during the work and are listed as fixed.')
+LEVEL_NOTE = ('Partial: joins over several loop variables, collection conditions other than the exists / in / count / len atoms (avg over a collection, sum(g.members.a)-style attribute lifting with GROUP BY, nested collections), aggregates in HAVING or inside larger selected expressions, order_by by position / attribute objects / lambdas over the result, ordering combined with limit / page (C24), dates, Decimal / float, JSON, arrays, hybrid methods, lambdas and generator '
               'objects (decompiler), entity row decoding are outside the theorem and outside this check. Trusted: Coq kernel + vm_compute; the hand-written translation '
               'model (tied structurally on every run); documentation models of PostgreSQL / MySQL (nothing executes there); the reference reading of None written from '
               'the property statement.')
